@@ -25,7 +25,8 @@ RULE = ("enumerated part: (schema config, node, suffix-path spelling, case varia
         "suffix-path index, per-character case mask, suffix text). Non-trivial = the spelling differs from the "
         "canonical short form (partial/full path, case change, namespace prefix, or suffix present).")
 ASSUMPTIONS = ["extension terms are fresh (not schema terms); values contain no delimiter characters",
-               "generated schemas (edited XML) are exercised by C05's generator, not here"]
+               "generated schemas = bundled XML plus generated chains of new nodes (below value-taking nodes, below "
+               "ordinary nodes, with their own '#' child, with names ending like their parent)"]
 
 # config name -> (xml version for the model, loader kind, namespace)
 CONFIGS = {
@@ -208,11 +209,89 @@ def oracle_random(case):
     return out
 
 
+# ---------------------------------------------------------------------------------------------------------------
+# generated schemas: shapes the bundled files lack (ordinary children below a value-taking node, deep chains,
+# a node whose name equals the tail of a sibling's name, extension-allowed and not)
+@st.composite
+def generated_case(draw):
+    return {"base": draw(st.sampled_from(["8.3.0", "8.1.0"])),
+            "adds": draw(st.lists(st.tuples(st.integers(0, 5000), st.integers(0, 5), st.integers(1, 3)),
+                                  min_size=1, max_size=4)),
+            "case_seed": draw(st.integers(0, 10 ** 6))}
+
+
+def build_generated(case):
+    import os
+    import tempfile
+    from vlib import gen_schema
+    root = gen_schema.clone(case["base"])
+    nodes = gen_schema.node_elements(root)
+    value_parents = [(e, long) for e, long, _ in nodes
+                     if any(c.findtext("name") == "#" for c in e.findall("node"))]
+    plain = [(e, long) for e, long, _ in nodes if not long.endswith("/#")]
+    new_longs = []
+    for i, (pos, kind, depth) in enumerate(case["adds"]):
+        if kind <= 2:       # ordinary child (chain) below a node that also has a '#' child
+            parent, plong = value_parents[pos % len(value_parents)]
+        else:
+            parent, plong = plain[pos % len(plain)]
+        for d in range(depth):
+            name = f"Zq{i}x{d}" if kind != 5 else f"Zq{i}-{plong.split('/')[-1]}"[:40] + str(d)
+            child = gen_schema.new_node(name, "generated")
+            if kind == 4 and d == depth - 1:
+                ph = gen_schema.new_node("#")
+                gen_schema.add_attr(ph, "takesValue")
+                child.append(ph)
+            parent.append(child)
+            plong = plong + "/" + name
+            parent = child
+            new_longs.append(plong)
+    d = tempfile.mkdtemp(prefix="c03gen_", dir=os.environ.get("HOME"))
+    path = os.path.join(d, "HED_gen.xml")
+    with open(path, "w", encoding="utf-8") as fp:
+        fp.write(gen_schema.to_string(root))
+    return path, new_longs
+
+
+def oracle_generated(case):
+    import random
+    import shutil
+    import os
+    from hed.schema import load_schema
+    out = Outcome(nontrivial=True)
+    path, new_longs = build_generated(case)
+    try:
+        m = xmlschema.XModel(path)
+        sch = load_schema(path)
+        cfg = "generated:" + path
+        _loaded[cfg] = (m, sch, "")
+        rnd = random.Random(case["case_seed"])
+        for long in new_longs:
+            node = m.by_long[long.casefold()]
+            targets = [node] + ([node.parent] if node.parent is not None else [])
+            for n in targets:
+                sfx = suffix_for(n, m)
+                for sp in m.suffix_paths(n):
+                    for s in {sp, sp.lower(), "".join(c.upper() if rnd.random() < 0.5 else c for c in sp)}:
+                        check_spelling(cfg, n.long, s, "", out)
+                        check_spelling(cfg, n.long, s, sfx, out)
+                        if out.violations:
+                            out.violations = [(sig, f"generated schema from {case}: " + det) for sig, det in out.violations]
+                            return out
+        has_mixed = any(n.placeholder is not None and n.children for n in m.nodes)
+        out.classes = (("value-node-with-ordinary-children",) if has_mixed else ()) + ("base:" + case["base"],)
+    finally:
+        _loaded.pop("generated:" + path, None)
+        shutil.rmtree(os.path.dirname(path), ignore_errors=True)
+    return out
+
+
 def parts(tier):
     configs = QUICK_CONFIGS if tier == "quick" else list(CONFIGS)
     n = 3000 if tier == "quick" else 40000
     return [Part("vocabulary", oracle_enum, enumerate_fn=make_enum(configs), exhaustive=True),
-            Part("random", oracle_random, strategy=random_strategy(configs), n=n)]
+            Part("random", oracle_random, strategy=random_strategy(configs), n=n),
+            Part("generated-schemas", oracle_generated, strategy=generated_case(), n=24 if tier == "quick" else 640)]
 
 
 def extra_evidence(tier):
